@@ -31,11 +31,13 @@ def module_text(mname, defs, exports):
     """defs: subset of names defined; exports: None or subset"""
     forms = []
     if exports is not None and exports:
-        forms.append("(export '(" + " ".join(sorted(exports)) + " get-" + mname + "))")
+        forms.append("(export '(" + " ".join(sorted(exports)) + " get-" + mname + " getv-" + mname + "))")
     for d in sorted(defs):
         forms.append(f"(define '{d} '{d}-of-{mname} \"\")")
     # an exported closure that reads both names: resolved relative to ITS module
     forms.append(f"(define 'get-{mname} (lambda () (list (eval (trap a 'na)) (eval (trap b 'nb)))) \"\")")
+    # the same as a VARIADIC closure (called through apply / unrest, which copies the function: the copy keeps its home module)
+    forms.append(f"(define 'getv-{mname} (lambda (& xs) (list (eval (trap a 'na)) (eval (trap b 'nb)) xs)) \"\")")
     # while the module itself is current (during its own load): from-module still reaches only exported names
     forms.append(f"(define 'self-{mname} (list (eval (trap (from-module 'a '{mname}) 'hidden)) (eval (trap (from-module 'b '{mname}) 'hidden))) \"\")")
     return " ".join(forms)
@@ -47,6 +49,8 @@ def queries(mods):
         q.append(f"(eval (trap (with-current-module 'b '{m}) (. *trapped-signal* 'kind)))")
         q.append(f"(eval (trap ((from-module 'get-{m} '{m})) (. *trapped-signal* 'kind)))")
         q.append(f"(eval (trap (with-current-module 'self-{m} '{m}) (. *trapped-signal* 'kind)))")
+        q.append(f"(eval (trap (apply (from-module 'getv-{m} '{m}) (list 1 2)) (. *trapped-signal* 'kind)))")
+        q.append(f"(eval (trap ((unrest (from-module 'getv-{m} '{m})) (list 3)) (. *trapped-signal* 'kind)))")
     q.append("(eval (trap (from-module 'a 'nomod) (. *trapped-signal* 'kind)))")
     return q
 
